@@ -150,6 +150,19 @@ bool BuildLog::OpenForWriteIfNeeded() {
     if (fprintf(log_file_, kFileSignature, kCurrentVersion) < 0) {
       return false;
     }
+  } else {
+    // A previous run may have died in the middle of writing a line.  Start on
+    // a fresh line, so that the first entry of this run is not glued to the
+    // partial one (which would lose the new entry and let an older entry of
+    // the same output resurface).
+    FILE* tail = fopen(log_file_path_.c_str(), "rb");
+    if (tail) {
+      const bool partial_last_line =
+          fseek(tail, -1, SEEK_END) == 0 && fgetc(tail) != '\n';
+      fclose(tail);
+      if (partial_last_line && fputc('\n', log_file_) == EOF)
+        return false;
+    }
   }
   return true;
 }
